@@ -254,29 +254,31 @@ func runScenario(ctx *core.Ctx, bin string, idx int, sc scenario) {
 				cc.Timeout = 2 * time.Second
 				c = cc
 			}
-			// the accept list BEFORE the probe: (re)connects the harness knows happened before the answer
+			// (re)connects the harness knows happened before the probe. The probe is
+			// GET marker, HEALTHZ, GET marker pipelined on one connection: a re-sync
+			// legitimately empties the follower (and clears its flag), so a claim is
+			// only judged when the marker is below the bound both before and after
+			// the HEALTHZ answer and no new connection appeared meanwhile.
 			accepts := px.Accepts()
-			rep, err := c.Do("HEALTHZ")
-			if err != nil {
+			c.Send("GET", "marker", "m")
+			c.Send("HEALTHZ")
+			c.Send("GET", "marker", "m")
+			m1, err1 := c.Recv()
+			rep, err2 := c.Recv()
+			m2, err3 := c.Recv()
+			if err1 != nil || err2 != nil || err3 != nil {
 				c.Close()
 				c = nil
 				time.Sleep(5 * time.Millisecond)
 				continue
 			}
+			accepts2 := px.Accepts()
 			mon.mu.Lock()
 			mon.probes++
 			mon.mu.Unlock()
-			if rep.String() == "+OK" && len(accepts) > 0 {
-				mrep, err := c.Do("GET", "marker", "m")
-				if err != nil {
-					c.Close()
-					c = nil
-					continue
-				}
-				have, _ := strconv.ParseInt(mrep.Str, 10, 64)
-				// the follower opens two connections per (re)connect (control+stream, checksum);
-				// use the accept time of the third-last connection at least: be conservative and
-				// take the marker acknowledged before the FIRST connection of the latest burst
+			if rep.String() == "+OK" && len(accepts) > 0 && len(accepts) == len(accepts2) {
+				have1, _ := strconv.ParseInt(m1.Str, 10, 64)
+				have2, _ := strconv.ParseInt(m2.Str, 10, 64)
 				last := accepts[len(accepts)-1]
 				burst := last
 				for i := len(accepts) - 1; i >= 0 && last.Sub(accepts[i]) < 300*time.Millisecond; i-- {
@@ -285,8 +287,8 @@ func runScenario(ctx *core.Ctx, bin string, idx int, sc scenario) {
 				need := ackedBefore(burst)
 				mon.mu.Lock()
 				mon.okSeen++
-				if have < need && len(mon.early) < 3 {
-					mon.early = append(mon.early, fmt.Sprintf("follower answered HEALTHZ +OK while its marker is %d; the leader had acknowledged marker %d before the follower's last (re)connect reached the proxy", have, need))
+				if have1 < need && have2 < need && len(mon.early) < 3 {
+					mon.early = append(mon.early, fmt.Sprintf("follower answered HEALTHZ +OK while its marker is %d (before) / %d (after the answer); the leader had acknowledged marker %d before the follower's last (re)connect reached the proxy", have1, have2, need))
 				}
 				mon.mu.Unlock()
 			}
